@@ -57,7 +57,14 @@ def run(ctx):
     o = ctx.ob("scan.cover", sc, "the collection walks every record (from *hptr->head along next to NULL) and every slot of it (0 <= i < that record's "
                "hazard_pointers_count), copying each non-NULL slot into plist", "a record or slot that is skipped is a hazard the scan does not see: its node is freed under the reader")
     bad = None
-    cur = [d for d, i in sc.local_by_did.items() if i["name"] == "cur_record"]
+    # the record cursor: the local that is advanced by `x = x->next` over thread records
+    cur = []
+    for did, evs in sc.defs().items():
+        for kind, node, val in evs:
+            if kind == "assign" and val is not None:
+                kk = sc.key(val)
+                if kk[0] == "f" and kk[1] == R and kk[2] == "next" and kk[3] == ("*", ("var", sc.local_by_did.get(did, {}).get("name"), did)) and did not in cur:
+                    cur.append(did)
     if not cur:
         bad = "cur_record not found"
     else:
@@ -67,7 +74,7 @@ def run(ctx):
         hk = deatomic(sc.key(inits[0][2], resolve=True)) if inits else ("?",)
         if not (hk[0] == "*" and key_mentions(hk, lambda x: x[0] == "f" and x[1] == R and x[2] == "head")):
             bad = "the walk starts at `%s`, not at the current head of the record list" % (inits[0][2].text if inits else "?")
-        if len(steps) != 1 or sc.key(steps[0][2]) != ("f", R, "next", ("*", ("var", "cur_record", cur[0]))):
+        if len(steps) != 1 or sc.key(steps[0][2]) != ("f", R, "next", ("*", ("var", sc.local_by_did[cur[0]]["name"], cur[0]))):
             bad = bad or "the walk does not advance by cur_record->next"
         # inner loop bound
         fl = [n for n in sc.all(k="ForStmt")]
@@ -80,7 +87,7 @@ def run(ctx):
             bad = bad or "slot loop not found"
         else:
             rk = sc.key(cond.kids[1], resolve=True)
-            if not (cond.op == "<" and is_field(rk, R, "hazard_pointers_count") and rk[3] == ("*", ("var", "cur_record", cur[0]))):
+            if not (cond.op == "<" and is_field(rk, R, "hazard_pointers_count") and rk[3] == ("*", ("var", sc.local_by_did[cur[0]]["name"], cur[0]))):
                 bad = bad or "the slot loop is bounded by `%s`, not by i < cur_record->hazard_pointers_count" % cond.text
             ivar = strip(cond.kids[0])
             idefs = [e for e in sc.defs().get(ivar.did, []) if e[0] in ("init", "assign")]
@@ -251,7 +258,10 @@ def run(ctx):
             bad = bad or "after a failed CAS the threshold is not recomputed for the new head"
         if not order_ge(c.order or "relaxed", "release"):
             bad = bad or "CAS order %s" % c.order
-        tv = [d for d, i in cp.local_by_did.items() if i["name"] == "threads"]
+        # the record counter: the one local the threshold expression reads
+        tv = sorted({strip(m).did for m in mine[0].value.walk() if m.k == "ImplicitCastExpr" and m.ck == "LValueToRValue" and strip(m).k == "DeclRefExpr"
+                     and strip(m).dk == "local" and strip(m).did})
+        tv = tv if len(tv) == 1 else []
         try:
             v = ev(cp, mine[0].value, atom_from([(is_var_load(tv[0]) if tv else (lambda n: False), 3), (is_param_load(cp, "pointers_per_thread"), 2)]))
             if v != 12:
@@ -275,7 +285,8 @@ def run(ctx):
     o = ctx.ob("plist.size", sc, "plist holds at least head->retire_threshold / 2 entries (= records x slots) and is reallocated when smaller",
                "a scan that collects more hazards than plist holds writes past the allocation")
     bad = None
-    mp = [d for d, i in sc.local_by_did.items() if i["name"] == "max_pointers"]
+    # the capacity local: the value stored into plist_size
+    mp = sorted({strip(x.value).did for x in sc.stores_to(R, "plist_size") if x.value is not None and strip(x.value).k == "DeclRefExpr" and strip(x.value).dk == "local"})
     mal = sc.calls("malloc")
     if not mp or len(mal) != 1:
         bad = "shape not recognised"
